@@ -161,7 +161,8 @@ def jobs(tier, seed):
             j['split_depth'] = 9
         out.append(j)
     # three-key mappings at depth 2
-    out.append(dict(fam='DD-3', A=D(D(I(), I(2), I()), I()), B=D(D(I(2), I()), I(2)), dict='auto', list='on', weight=30, extra=dict(c08='perm'), alpha=3, split_depth=9))
+    if tier != 'quick':
+        out.append(dict(fam='DD-3', A=D(D(I(), I(2), I()), I()), B=D(D(I(2), I()), I(2)), dict='auto', list='on', weight=30, extra=dict(c08='perm'), alpha=3, split_depth=9))
     out.append(dict(fam='DD-3', A=D(D(I(), I(2), I()), I()), B=D(D(I(2), I()), I(2)), dict='none', list='on', weight=30, extra=dict(c08='perm'), alpha=3, split_depth=9))
     for n in (2, 3):
         for i, j in itertools.combinations(range(n), 2):
